@@ -333,7 +333,7 @@ func runC20(sc C20Sc, c *kit.Case) *kit.Violation {
 
 func init() {
 	kit.Register("C20a",
-		"rapid: a node with its own limiter (rate 1e-6 / 5 / 50 / 500 per second, burst 0 / 1 / 3 / 25, wait-to-reply on or off) receives a flood of 0..600 inbound queries of mixed methods from 1..200 spoofed sources while up to 11 outbound queries (1..5 tries each; rate-limiting policy default / NotFirst / NotAny / NoWaitFirst / WaitOnRetries; answered, unanswered, or with every socket write failing) and optionally a bootstrap or announce traversal run concurrently. Each harness query carries a marker, so the harness knows which sends are exempt. Oracle: with t0 taken before the limiter was created and o_k the instant the k-th rated datagram (every response and error, every query send not exempted by its policy) reached the socket, k <= burst + rate x (o_k - t0) (+1 rounding, + rate x 20 ms for the limiter library's own clock slack under preemption) for every k - sound under arbitrary scheduling delay because all k tokens were necessarily acquired within [t0, o_k]; with rate 1e-6 at most `burst` rated datagrams ever; no query is written more often than NumTries; everything returns (deadlock detector). Non-trivial: the offered load is at least twice the budget.",
+		"rapid: a node with its own limiter (rate 1e-6 / 5 / 20 / 50 / 500 per second, burst 0 / 1 / 3 / 4 / 8 / 25, wait-to-reply on or off; every n-th rated write reported one byte short by the socket in a quarter of the runs; in a third of the runs a prelude of 1..7 answered pings followed by a pause that refills the limiter completely; AddNode calls with unknown IDs) receives a flood of 0..600 inbound queries of mixed methods from 1..200 spoofed sources while up to 11 outbound queries (1..5 tries each; rate-limiting policy default / NotFirst / NotAny / NoWaitFirst / WaitOnRetries; answered, unanswered, or with every socket write failing) and optionally a bootstrap or announce traversal run concurrently. Each harness query carries a marker, so the harness knows which sends are exempt. Oracle: with t0 taken before the limiter was created and o_k the instant the k-th rated datagram (every response and error, every query send not exempted by its policy) reached the socket, k <= burst + rate x (o_k - t0) (+1 rounding, + rate x 20 ms for the limiter library's own clock slack under preemption) for every k - sound under arbitrary scheduling delay because all k tokens were necessarily acquired within [t0, o_k]; with rate 1e-6 at most `burst` rated datagrams ever; no query is written more often than NumTries; everything returns (deadlock detector). Non-trivial: the offered load is at least twice the budget.",
 		[]string{"failed socket writes are not counted as sent (the limiter takes the token back)", "sliding windows over observed times are not used: a delayed goroutine can bunch writes without the limiter having been exceeded"},
 		genC20, runC20)
 }
